@@ -39,6 +39,7 @@ var shimFor = map[string][2]string{ // import path -> {shim dir, default name}
 	"time":                             {"simtime", "time"},
 	"os":                               {"simos", "os"},
 	"io/ioutil":                        {"simioutil", "ioutil"},
+	"path/filepath":                    {"simfilepath", "filepath"},
 	"net":                              {"simnet", "net"},
 	"log":                              {"simlog", "log"},
 	"github.com/magiconair/properties": {"simprops", "properties"},
